@@ -26,7 +26,7 @@ ASSUMPTIONS = [
     'DE: one focus candidate per instance has solver-chosen random draws (all positions are instances); Powell: Brent replaced by its contract',
 ]
 BOUNDS = {'quick': dict(dim='1..2', NP=4, steps=1), 'thorough': dict(dim='1..3', NP='4..6', steps=1)}
-BUDGET = {'quick': 600, 'thorough': 5400}
+BUDGET = {'quick': 1800, 'thorough': 5400}
 
 
 def calls_feasible(w, start=0):
